@@ -57,8 +57,9 @@ def _d(b):
     return hashlib.blake2b(b, digest_size=12).hexdigest()
 
 
-def build_and_export(h, ops, top, verbose=False):
+def build_and_export(h, ops, top, verbose=False, prior_equal=False):
     it = interp.Interp(h)
+    it.prior_equal = prior_equal
     for op in ops:
         it.run(op)
     out = {}
@@ -99,7 +100,7 @@ def exec_variant(arg):
         it0.run(["to_proto", [901], True])
         keep.append(it0)
     try:
-        out, texts = build_and_export(h, scn["ops"], scn["top"], verbose=scn.get("verbose", False))
+        out, texts = build_and_export(h, scn["ops"], scn["top"], verbose=scn.get("verbose", False), prior_equal=bool(unrelated))
     except Exception as e:  # noqa
         return {"build_exc": interp.norm_exc(e), "sched": sched.stats()}
     return {"out": out, "texts": texts, "sched": sched.stats()}
